@@ -27,7 +27,9 @@ FRAGMENTS = {
                    'hue {1 + (2 * 3}', 'hue {1 + 2 * 3)}', 'assign x {', 'hue [round {1.5]}', 'if {(1 < 2} hue 1', 'print {1 + }'],
     'bad-time-pattern': ['time at 25:00', 'time at 12:60', 'time at 8:00 or 25:00', 'time at 8:00 or 9:00 or 12:75', 'time at 1:2', 'time at 123:00',
                          'time at -8:00', 'time at 8:00 or', 'define t 25:00', 'define t 12:30 time at t or 24:00', 'time at 3*:00', 'time at *:6*',
-                         'time at 8:00 or noon', 'time at 24:00', 'time at 8:0', 'time at :30', 'time at 8:', 'time at 8:00 or 7:61 or 9:00', 'time at **:00'],
+                         'time at 8:00 or noon', 'time at 24:00', 'time at 8:0', 'time at :30', 'time at 8:', 'time at 8:00 or 7:61 or 9:00', 'time at **:00',
+                         'time at 10:00 or 12', 'time at 10:00 or 1030', 'time at 10:00 or "11:00"', 'define n 1030 time at 10:00 or n',
+                         'define s "x" time at 10:00 or 9:00 or s', 'time at 10:00 or 2.5', 'time at 12', 'time at "12:00"', 'define n 5 time at n'],
 }
 
 CONTEXTS = [
